@@ -333,3 +333,22 @@ def cguards(ctx: Ctx, fi: FuncInfo, target: ast.AST) -> list[tuple[str, ...]]:
         out.append(canon_test(test if sense else
                               ast.UnaryOp(op=ast.Not(), operand=test)))
     return out
+
+
+def norm_compare(test: ast.AST) -> Optional[tuple[ast.AST, type, ast.AST]]:
+    """(left, operator type, right) of a single comparison with ``not``
+    folded into the operator and a constant operand moved to the right
+    (``0 == x`` -> (x, Eq, 0))."""
+    e, pos = strip_not(test)
+    if not (isinstance(e, ast.Compare) and len(e.ops) == 1):
+        return None
+    op = type(e.ops[0])
+    if not pos:
+        if op not in _NEG:
+            return None
+        op = _NEG[op]
+    l, r = e.left, e.comparators[0]
+    if isinstance(l, ast.Constant) and not isinstance(r, ast.Constant) \
+            and op in _MIRROR:
+        l, r, op = r, l, _MIRROR[op]
+    return l, op, r
